@@ -1,5 +1,5 @@
 From Coq Require Import List NArith Bool Lia.
-From PV Require Import Lib.Bytes Model.Scope Spec.ScopeSpec.
+From PV Require Import Lib.Bytes Lib.PanicRes Model.Scope Spec.ScopeSpec.
 Import ListNotations.
 
 Lemma str_eqbP a b : reflect (a = b) (str_eqb a b).
@@ -253,3 +253,107 @@ Proof.
   intros H. destruct (H hist_real_then_commented name_A) as [l Hl]; [vm_compute; reflexivity|].
   vm_compute in Hl. discriminate.
 Qed.
+
+(* ---- DefineAll ---- *)
+
+Lemma insert_sorted_in k x l : In x (insert_sorted k l) -> x = k \/ In x l.
+Proof.
+  induction l as [|y t IH]; cbn [insert_sorted].
+  - intros [<-|[]]; auto.
+  - destruct (str_leb k y).
+    + intros [<-|H]; auto.
+    + intros [<-|H]; [right; left; reflexivity|]. destruct (IH H); [auto|right; right; auto].
+Qed.
+
+Lemma varnames_in st k : In k (varnames st) -> In k (map fst st).
+Proof.
+  unfold varnames. induction (map fst st) as [|y t IH]; cbn [fold_right]; [auto|].
+  intros H. destruct (insert_sorted_in _ _ _ H) as [->|H']; [left; reflexivity|right; auto].
+Qed.
+
+Lemma slookup_key st k : In k (map fst st) -> exists x, slookup st k = Some x.
+Proof.
+  induction st as [|[k0 y] t IH]; [contradiction|]. cbn [map fst slookup].
+  destruct (str_eqbP k0 k) as [->|Hne]; [eauto|]. intros [H|H]; [congruence|auto].
+Qed.
+
+(* partial correctness, for all states: when DefineAll does not panic it is that history *)
+Lemma define_all_fold other : forall names acc st',
+  fold_left (define_all_step other) names acc = Ok st' ->
+  exists a, acc = Ok a /\
+  st' = fold_left sstep (flat_map (fun k => match slookup other k with
+                     | Some x => match v_first x, v_last x with
+                                 | Some f, Some l => [ODefine k f; ODefine k l]
+                                 | _, _ => []
+                                 end
+                     | None => []
+                     end) names) a.
+Proof.
+  induction names as [|k t IH]; intros acc st' H; cbn [fold_left flat_map] in *.
+  - destruct acc; try discriminate. inversion H; subst. eauto.
+  - destruct (IH _ _ H) as (a1 & Hstep & ->). clear IH H.
+    unfold define_all_step in Hstep. destruct acc as [a| |]; cbn [bind] in Hstep; try discriminate.
+    exists a. split; [reflexivity|].
+    destruct (slookup other k) as [x|]; [|discriminate].
+    destruct (v_first x) as [f|].
+    + destruct (v_last x) as [l|]; [|discriminate]. inversion Hstep; subst.
+      rewrite fold_left_app. reflexivity.
+    + inversion Hstep; subst. destruct (v_last x); reflexivity.
+Qed.
+
+Lemma define_all_as_history st other st' :
+  sdefine_all st other = Ok st' -> st' = fold_left sstep (define_all_hist other) st.
+Proof.
+  unfold sdefine_all, define_all_hist. intros H.
+  destruct (define_all_fold _ _ _ _ H) as (a & Ha & ->). inversion Ha; subst. reflexivity.
+Qed.
+
+(* a scope built by Define/Fallback/Use has a last definition wherever it has a first one *)
+Lemma run_first_last_consistent h k f :
+  fld v_first (scope_run h) k = Some f -> exists l, fld v_last (scope_run h) k = Some l.
+Proof.
+  unfold scope_run. rewrite run_first, run_last. cbn. unfold or_else.
+  destruct (defs_of k h) as [|a t]; cbn [hd_error]; [discriminate|].
+  intros _. destruct (last_opt_nonempty a t) as [x ->]. eauto.
+Qed.
+
+Lemma define_all_fold_ok other :
+  (forall k x f, slookup other k = Some x -> v_first x = Some f -> exists l, v_last x = Some l) ->
+  forall names, (forall k, In k names -> In k (map fst other)) ->
+  forall a, exists st', fold_left (define_all_step other) names (Ok a) = Ok st'.
+Proof.
+  intros Hwf. induction names as [|k t IH]; intros Hin a; cbn [fold_left]; [eauto|].
+  assert (Hk : In k (map fst other)) by (apply Hin; left; reflexivity).
+  destruct (slookup_key _ _ Hk) as [x Hx].
+  unfold define_all_step at 2. cbn [bind]. rewrite Hx.
+  destruct (v_first x) as [f|] eqn:Hf.
+  - destruct (Hwf _ _ _ Hx Hf) as [l ->]. apply IH. intros; apply Hin; right; auto.
+  - apply IH. intros; apply Hin; right; auto.
+Qed.
+
+(* DefineAll(other) never panics when `other` was built by Define/Fallback/Use, whatever the target *)
+Lemma define_all_no_panic st h : exists st', sdefine_all st (scope_run h) = Ok st'.
+Proof.
+  unfold sdefine_all. apply define_all_fold_ok.
+  - intros k x f Hx Hf.
+    assert (E1 : fld v_first (scope_run h) k = Some f) by (unfold fld, screate; rewrite Hx; exact Hf).
+    destruct (run_first_last_consistent _ _ _ E1) as [l Hl].
+    unfold fld, screate in Hl. rewrite Hx in Hl. eauto.
+  - apply varnames_in.
+Qed.
+
+(* hence every history theorem applies to the target after DefineAll *)
+Lemma define_all_run h h2 :
+  exists st', sdefine_all (scope_run h) (scope_run h2) = Ok st' /\
+              st' = scope_run (h ++ define_all_hist (scope_run h2)).
+Proof.
+  destruct (define_all_no_panic (scope_run h) h2) as [st' H]. exists st'. split; [exact H|].
+  rewrite (define_all_as_history _ _ _ H). unfold scope_run. rewrite fold_left_app. reflexivity.
+Qed.
+
+(* defect 16 in the model: DefineAll copies the commented last line, the copy is "defined" with a nil
+   LastDefinition *)
+Lemma define_all_copies_commented :
+  exists st', sdefine_all [] (scope_run hist_real_then_commented) = Ok st' /\
+              is_defined st' name_A = true /\ last_definition st' name_A = None.
+Proof. eexists. split; [vm_compute; reflexivity|]. split; vm_compute; reflexivity. Qed.
